@@ -36,6 +36,7 @@ class Function:
     # Set of tasks that are running
     #
     our_tasks: ClassVar[set[Task]] = set()
+    unstarted_tasks: ClassVar[set[Task]] = set()
 
     #
     # Done callbacks for each task
@@ -122,6 +123,10 @@ class Function:
                     if cmd[0] == "exit":
                         return
                     if cmd[0] == "cancel":
+                        # a task that has not reached its first statement yet would be cancelled without
+                        # running its clean-up and done callbacks: let it start first (one loop iteration)
+                        while cmd[1] in cls.unstarted_tasks and not cmd[1].done():
+                            await asyncio.sleep(0)
                         # don't wait for the task to finish: its done callbacks may suspend, and the
                         # cancellations queued behind it must not be held up
                         cmd[1].cancel()
@@ -435,6 +440,7 @@ class Function:
         try:
             task = asyncio.current_task()
             cls.our_tasks.add(task)
+            cls.unstarted_tasks.discard(task)
             if ast_ctx is not None:
                 cls.task_done_callback_ctx(task, ast_ctx)
             result = await coro
@@ -469,7 +475,9 @@ class Function:
         task = cls.hass.loop.create_task(cls.run_coro(coro, ast_ctx=ast_ctx))
         # known as one of ours from creation on, so that it can be cancelled before it first runs
         cls.our_tasks.add(task)
+        cls.unstarted_tasks.add(task)
         task.add_done_callback(cls.our_tasks.discard)
+        task.add_done_callback(cls.unstarted_tasks.discard)
         return task
 
     @classmethod
